@@ -87,6 +87,8 @@ type outcome struct {
 	detail map[string]any
 }
 
+var tableRelax = strings.NewReplacer(`\|`, "|", "&#124;", "|", "<br>", "", "<br/>", "", "<br/>", "")
+
 func short(s string) string { return fw.OneLine(s, 160) }
 
 func chunkDump(chunks []*rag.Chunk) []map[string]any {
@@ -183,10 +185,16 @@ func checkElementView(units []cm.Unit, chunks []*rag.Chunk, c *fw.Ctx) *outcome 
 	if o := compareSequences(want, got, idx, units); o != nil {
 		return o
 	}
-	// white-space-free containment of every part (covers the filler words too)
+	// white-space-free containment of every part (covers the filler words too).
+	// Table cells are rendered as a Markdown table: a renderer may escape '|'
+	// and replace a line break inside a cell, which is not a loss of content.
+	sqTable := tableRelax.Replace(sq)
 	for _, u := range units {
 		for _, p := range u.Parts {
 			s := cm.Squeeze(p)
+			if u.Kind == cm.Table && strings.Contains(sqTable, tableRelax.Replace(s)) {
+				continue
+			}
 			if s != "" && !strings.Contains(sq, s) {
 				return &outcome{"part-missing/" + u.Kind.String(), fmt.Sprintf("%s on page %d: its text %q is not contained (white space aside) in the concatenated chunk texts", u.Kind, u.Page, short(p)), nil}
 			}
@@ -534,6 +542,7 @@ func Run(c *fw.Ctx) {
 		"page truth = the number the generator gave the page (preset Page.Number, else insertion order)")
 	n := c.N(1500, 60000)
 	c.Parallel(n, func(i int) { runCase(c, i) })
+	c.Parallel(c.N(300, 8000), func(i int) { runHTMLCase(c, i) })
 	fixedCases(c)
 	if c.Only == "" && c.Evaluations() < int64(n) {
 		c.Inconclusive("fewer cases executed than planned")
